@@ -19,6 +19,10 @@ Op lines (strings percent-encoded; `<hdrs>` = `_` or `k|v;k|v…`; `<list>` = `_
   reqflow req=<json> procs=<json> p=<action>… / respflow resp=<json> procs=<json> p=<action>…
       flows mode: real processors in sequence over one API stream, folded by the real fold site; the p= words are
       what each processor produced WHEN it produced it (the processor configurations are opaque to the model) → spoe …
+  hreq ctx=<live|draining> url=… hdrs=… body=… p=<action>… / hresp ctx=<live|draining> url=… status=… hdrs=… body=… p=<action>…
+      the real message handler (routing.Handler) on a real stream; p= = the actions the loaded flows produce for the
+      message; draining = the context manager's context is cancelled.  A response message leaves with its own fold
+      whatever the context; a request message while draining leaves with the shutdown early response (not judged)
 -/
 open LunarVerif LunarVerif.Proto LunarVerif.C07
 
@@ -221,6 +225,22 @@ def parseFlow {α} (parseAct : List String → Option α) (key : String) (ws : L
   if !(hasKey && hasProcs && wellFormed) then none
   else (ws.filter (·.startsWith "p=")).mapM fun w => parseAct (words (decB (w.drop 2).toString))
 
+/-- `hreq` / `hresp` words: the context state and the produced actions; everything else is opaque. -/
+def parseHandler {α} (parseAct : List String → Option α) (ws : List String) : Option (Bool × List α) :=
+  let known := ws.all fun w => w == "ctx=live" || w == "ctx=draining" || w.startsWith "url=" || w.startsWith "status=" ||
+    w.startsWith "hdrs=" || w.startsWith "body=" || w.startsWith "p="
+  let statusOk := ws.all fun w => !w.startsWith "status=" || ((w.drop 7).toString.toInt?).isSome
+  let hdrsOk := ws.all fun w => !w.startsWith "hdrs=" || (parseHdrs (w.drop 5).toString).isSome
+  if !(known && statusOk && hdrsOk) then none
+  else if !(ws.contains "ctx=live" || ws.contains "ctx=draining") then none
+  else
+    match (ws.filter (·.startsWith "p=")).mapM fun w => parseAct (words (decB (w.drop 2).toString)) with
+    | some acts => some (ws.contains "ctx=draining", acts)
+    | none => none
+
+/-- `getShutdownActions`: what a request message leaves with while the gateway is draining. -/
+def shutdownReply : ReqAct := .early 503 "Lunar Gateway is shutting down" []
+
 /-! ### which actions the harness can obtain from a real remedy (see harness/go/cmd/c07/policy.go) -/
 
 def reqExpressible : ReqAct → Bool
@@ -297,6 +317,15 @@ def runStep (s : RunSt) (line : String) : RunSt × String :=
     | none =>
       let vals := names.filterMap fun n => (s.store.lookup n).bind Obj.asResp
       (s, fmtEnc (encodeResp (foldResp vals)))
+  | "hreq" :: ws =>
+    match parseHandler parseReqWords ws with
+    | some (draining, vals) =>
+      (s, fmtEnc (encodeReq (if draining then shutdownReply else foldReq vals)))
+    | none => (s, "bad-op")
+  | "hresp" :: ws =>
+    match parseHandler parseRespWords ws with
+    | some (_, vals) => (s, fmtEnc (encodeResp (foldResp vals)))     -- whatever the context
+    | none => (s, "bad-op")
   | "reqflow" :: ws =>
     match parseFlow parseReqWords "req=" ws with
     | some vals => (s, fmtEnc (encodeReq (foldReq vals)))
@@ -391,6 +420,17 @@ def judgeStep (s : JudgeSt) (op out : String) : JudgeSt :=
     | some ins, some vs =>
       let all := s.names ++ names
       { s with names := all, obs := (.reqSite ins vs, all) :: s.obs }
+    | _, _ => { s with bad := some ("unparsable-answer:" ++ encB out) }
+  | "hreq" :: ws =>
+    if out.startsWith "err:" || out == "bad-op" then s else
+    match parseHandler parseReqWords ws, parseSpoe (words out) with
+    | some (false, ins), some vs => { s with obs := (.reqSite ins vs, s.names) :: s.obs }
+    | some (true, _), some _ => s          -- the request-side shutdown reply is modelled, not judged
+    | _, _ => { s with bad := some ("unparsable-answer:" ++ encB out) }
+  | "hresp" :: ws =>
+    if out.startsWith "err:" || out == "bad-op" then s else
+    match parseHandler parseRespWords ws, parseSpoe (words out) with
+    | some (_, ins), some vs => { s with obs := (.respSite ins vs, s.names) :: s.obs }
     | _, _ => { s with bad := some ("unparsable-answer:" ++ encB out) }
   | "reqflow" :: ws =>
     if out.startsWith "err:" || out == "bad-op" then s else
